@@ -103,10 +103,10 @@ C04_Sorted(tb) == \A i \in 1..(Len(tb) - 1) : tb[i].b.v <= tb[i + 1].b.v
 
 (* ================= C05: every hit accounted for exactly once =========== *)
 C05_Partition(d, ids) ==
-  \A i \in Idx(d) : IF d[i].h = -1 THEN ids.s[i] = -1 /\ ids.g[i] = -1 /\ ids.l[i] = -1
+  \A i \in Idx(d) : IF d[i].h = NaNH THEN ids.s[i] = -1 /\ ids.g[i] = -1 /\ ids.l[i] = -1
                     ELSE ids.s[i] >= 0 /\ ids.g[i] >= 0 /\ ids.l[i] >= 0
 C05_PartitionOne(d, idv) ==
-  \A i \in Idx(d) : IF d[i].h = -1 THEN idv[i] = -1 ELSE idv[i] >= 0
+  \A i \in Idx(d) : IF d[i].h = NaNH THEN idv[i] = -1 ELSE idv[i] >= 0
 C05_TableMatchesIds(tb, idv, nrep) ==
   /\ {tb[i].cid : i \in Idx(tb)} = IdsPresent(idv)
   /\ Len(tb) = Cardinality(IdsPresent(idv))
